@@ -95,6 +95,7 @@ func runC02(r *Run) {
 		return
 	}
 	// planners = functions storing Result.PodsToCreate / PodsToDelete
+	deleteFeeders := map[*ssa.Call]bool{}
 	for _, fn := range sortedFuncs(reach) {
 		for _, b := range fn.Blocks {
 			for _, in := range b.Instrs {
@@ -122,6 +123,9 @@ func runC02(r *Run) {
 				for ai := 0; ai < len(apps); ai++ {
 					ap := apps[ai]
 					elems, spread := appendedElems(ap)
+					if rule == "C02.Q2" {
+						deleteFeeders[ap] = true
+					}
 					pos := r.Prog.Pos(instrPos(ap))
 					ff := r.Prog.factsOf(ap.Parent())
 					fn := ap.Parent()
@@ -169,6 +173,7 @@ func runC02(r *Run) {
 			}
 		}
 	}
+	c02OutdatedAlwaysCandidate(r, reach, deleteFeeders)
 	c02Cleanup(r, reach)
 	c02Unknown(r, reach)
 	r.RuleDoc("C02.Q5", "a canary recorded in the status cannot outlive its cause: status.canary is decided on every path to the status write (stale canary nodes would stay hidden from the rolling update for ever)")
@@ -352,4 +357,112 @@ func c02Unknown(r *Run, reach map[*ssa.Function]bool) {
 			"the planner that reports Desired=0 (replica set neither active nor canary) stores no PodsToCreate/PodsToDelete and performs no API write", !plans && !writes,
 			fmt.Sprintf("plans=%v writes=%v", plans, writes))
 	}
+}
+
+// c02OutdatedAlwaysCandidate (C02.Q11): the converse of Q2, needed for progress. In a planner that
+// compares a node's pod with the template and feeds update-deletion candidates under the answer
+// "outdated", EVERY iteration path on which the comparison is false reaches one of the appends that
+// feed Result.PodsToDelete (or leaves the function with an error). Otherwise some class of outdated
+// pods (say: the available ones) is never replaced and the rollout never reaches the final state.
+// A path on which the pod is known to be terminating already (DeletionTimestamp != nil) is exempt.
+// Decided only where the comparison and a feeder append live in the same function (the shape the
+// rule can read); other shapes yield no obligation — the rule never guesses.
+func c02OutdatedAlwaysCandidate(r *Run, reach map[*ssa.Function]bool, feeders map[*ssa.Call]bool) {
+	r.RuleDoc("C02.Q11", "every outdated pod is a deletion candidate: each iteration path on which the up-to-date comparison is false passes an append feeding Result.PodsToDelete")
+	n := 0
+	for _, fn := range sortedFuncs(reach) {
+		if !r.Prog.IsRuleSite(fn) {
+			continue
+		}
+		feederBlocks := map[*ssa.BasicBlock]bool{}
+		for ap := range feeders {
+			if ap.Parent() == fn {
+				feederBlocks[ap.Block()] = true
+			}
+		}
+		if len(feederBlocks) == 0 {
+			continue
+		}
+		k := newKeyer(fn)
+		for _, b := range fn.Blocks {
+			for _, in := range b.Instrs {
+				c, ok := in.(*ssa.Call)
+				if !ok {
+					continue
+				}
+				cal := staticCallee(&c.Call)
+				if cal == nil || cal.Name() != "compareCurrentPodWithNewPod" {
+					continue
+				}
+				headers := enclosingLoopHeaders(fn, b)
+				inLoop := func(x *ssa.BasicBlock) bool {
+					for h := range headers {
+						if !enclosingLoopHeaders(fn, x)[h] {
+							return false
+						}
+					}
+					return true
+				}
+				isEnd := func(x *ssa.BasicBlock) bool {
+					if headers[x] {
+						return true
+					}
+					return returnOf(x) != nil
+				}
+				paths, okp := enumPaths(fn, k, b, isEnd, func(x *ssa.BasicBlock) bool { return false }, 20000)
+				pos := r.Prog.Pos(instrPos(c))
+				if !okp {
+					r.Undecided("C02.Q11", "outdated pod becomes a deletion candidate", pos, shortFunc(fn), "path cap exceeded")
+					continue
+				}
+				good, detail := true, ""
+				cnt := 0
+				ckey := k.key(c)
+				for _, p := range paths {
+					isFalse := false
+					for _, f := range p.Facts {
+						if f.Key == ckey && !f.Pol {
+							isFalse = true
+						}
+					}
+					if !isFalse {
+						continue
+					}
+					cnt++
+					hit := false
+					for _, f := range p.Facts {
+						// a pod that is already being deleted (DeletionTimestamp != nil) needs no new deletion
+						if !f.Pol && isNilCompareOf(f.V, func(x ssa.Value) bool { return hasPathSuffix(x, "DeletionTimestamp") }) {
+							hit = true
+						}
+					}
+					for _, pb := range p.Blocks {
+						if feederBlocks[pb] {
+							hit = true
+						}
+					}
+					last := p.Blocks[len(p.Blocks)-1]
+					if !hit {
+						if ret := returnOf(last); ret != nil && len(ret.Results) > 0 {
+							// leaving with a non-nil error is fine
+							if e := ret.Results[len(ret.Results)-1]; !isNilConst(e) && types.Identical(e.Type(), types.Universe.Lookup("error").Type()) {
+								continue
+							}
+						}
+						_ = inLoop
+						good = false
+						detail = "with the comparison false the iteration can end without appending the node to a list that feeds PodsToDelete: [" + shortFacts(p) + "]"
+					}
+				}
+				r.paths += cnt
+				if cnt == 0 {
+					continue
+				}
+				n++
+				r.Check("C02.Q11", "outdated pod becomes a deletion candidate", pos, shortFunc(fn),
+					"every path with compareCurrentPodWithNewPod(...) == false reaches an append feeding Result.PodsToDelete", good, detail)
+			}
+		}
+	}
+	r.extra["C02.Q11 comparison sites decided"] = n
 }
